@@ -153,7 +153,8 @@ def check_signature(ctx, params, ret, rnd):
               dict(w, shape=[n, sorted(kws)], got=repr(got) if gok else 'TypeError', expected=repr(real) if rok else 'TypeError'), rp)
             break
         try:
-            bound = support.bind_callsig(want_sig, args, kwargs)
+            # (the positional arguments arrive as a tuple, or as any other sequence: a list, every other time)
+            bound = support.bind_callsig(want_sig, list(args) if i % 2 else args, kwargs)
             bok = True
         except TypeError:
             bok = False
